@@ -3,6 +3,10 @@
 # snapshot and explores other base seeds, writing evidence/replays under ./sweep-out
 # (never under /verif/evidence).  usage: sweep.sh <PROPERTY> <tier> <seed> [<seed> ...]
 prop=$1; tier=$2; shift 2
+# The binary under /verif/target is whatever the last ./check built - possibly against a /repo with
+# a sensitivity patch applied. Refuse a dirty /repo and rebuild first.
+[ -z "$(git -C /repo status --porcelain)" ] || { echo "sweep: /repo working tree is not clean"; exit 2; }
+/verif/check setup > /dev/null || { echo "sweep: setup failed"; exit 2; }
 cp /verif/target/release/acbsim ./acbsim.sweep || exit 2
 cp /verif/target/release/hashprobe ./hashprobe || exit 2   # the seam probe is looked up next to the binary
 mkdir -p sweep-out
